@@ -142,6 +142,55 @@ pub fn blobs(ctx: &Ctx) {
     }
 }
 
+/// a device that is not empty (old bytes of several kinds, handle at the start or at the end): the
+/// writer may refuse to start - but if it starts, what it finalizes successfully must be a
+/// well-formed file like any other
+pub fn stale_device(ctx: &Ctx) {
+    let old: Vec<u8> = match ctx.pick("old-content", 6) {
+        0 => vec![1, 2, 3],
+        1 => vec![0u8; 1024],
+        2 => vec![0xAAu8; 5000],
+        3 => vec![0x55u8; 9999],
+        4 => pattern(5, 20 * 1024),
+        _ => {
+            // a complete, larger file
+            let p = Program { guid: "old".into(), ops: vec![Op::Blob(pattern(8, 7000)), Op::Cloud(cloud(xyz(F32), 300, 4))], ..Default::default() };
+            let dev = crate::dev::Dev::empty();
+            let h = dev.handle();
+            let _ = run_program(dev, &p, &ExecOpts::default());
+            h.snapshot()
+        }
+    };
+    let at_end = ctx.pick("handle-position", 2) == 1;
+    let p = [
+        Program { guid: "g".into(), ops: vec![], ..Default::default() },
+        Program { guid: "g".into(), ops: vec![Op::Blob(pattern(1, 10)), Op::Cloud(cloud(xyz(F32), 3, 5))], ..Default::default() },
+        Program { guid: "g".into(), ops: vec![Op::Cloud(cloud(xyz(F32), 200, 6)), Op::Image(image(3, true, 33, 5))], ..Default::default() },
+    ][ctx.pick("program", 3)]
+    .clone();
+    ctx.describe(|| format!("device already holds {} bytes, handle at the {}: {}", old.len(), if at_end { "end" } else { "start" }, describe(&p)));
+    let mut dev = crate::dev::Dev::new(old.clone());
+    if at_end {
+        use std::io::Seek;
+        let _ = dev.seek(std::io::SeekFrom::End(0));
+    }
+    let h = dev.handle();
+    let run = run_program(dev, &p, &ExecOpts::default());
+    if let Some((i, pi)) = &run.panic {
+        ctx.violation(format!("{P}/write-panic/{}", pi.class()), format!("writer panicked at {} ({}) during op #{i} on a device that was not empty", pi.loc, pi.msg));
+        return;
+    }
+    if run.err.is_some() || !run.finalized {
+        ctx.count("refused-to-write-on-a-used-device");
+        ctx.nontrivial();
+        return;
+    }
+    let w = Written { bytes: h.snapshot(), run };
+    if spec_check(ctx, &p, &w) {
+        ctx.nontrivial();
+    }
+}
+
 /// tiny clouds of narrow records only (the program space of C12-G6)
 pub fn tiny(ctx: &Ctx) {
     let (p, _) = crate::c12::gen_g6(ctx);
